@@ -64,7 +64,7 @@ TraceCall ==
           inprog == "d" \in DOMAIN j
           bound == ~inprog \/ \A i \in DOMAIN j.s : j.s[i] = 0 \/ env[j.s[i]] = e.a[i]     \* data-flow binding
           v == JudgeAll(Prop, prev, e)
-          fid == Fidelity(e)
+          fid == FidelityAll(e)
       IN /\ l' = l + 1
          /\ prev' = e
          /\ IF ~bound
